@@ -93,9 +93,15 @@ def _pv(s, i):
                 return frozenset(items), i + 1
             assert s[i] == ',', (s, i)
             i += 1
-    if s[i] == '"':
-        j = s.index('"', i + 1)
-        return s[i + 1:j], j + 1
+    if s[i] == '"':                      # TLA+ string: \\ and \" are escapes
+        j = i + 1
+        out = []
+        while s[j] != '"':
+            if s[j] == '\\' and j + 1 < len(s):
+                j += 1
+            out.append(s[j])
+            j += 1
+        return ''.join(out), j + 1
     if s.startswith('TRUE', i):
         return True, i + 4
     if s.startswith('FALSE', i):
